@@ -501,6 +501,16 @@ class _rewrite_captured_vars(ast.NodeTransformer):
                 return _mark_ignore_name().visit(ns_node)
             return ast.Constant(value=_plain_value(new_value))
 
+        # An attribute python does not find on a captured value (not a class or a module, which
+        # may stand for something only the back end knows): the value is captured all the
+        # same - `check_ast` refuses it if it can't be sent.
+        if (
+            isinstance(value, ast.Constant)
+            and not isinstance(node.value, ast.Constant)
+            and not isinstance(value.value, (type, ModuleType))
+        ):
+            return ast.Attribute(value=value, attr=node.attr, ctx=node.ctx)
+
         # If we fail, then just move on.
         return node
 
